@@ -295,6 +295,21 @@ def helpers_rule(F, rep):
                         e = strip(e["e"])
                     return e.get("k") == "Path" and e.get("id") == iv
                 child = None     # binding of `values.get(i)`
+                bounded = "game::NUM_PORTS" in it
+                if n["pat"].get("k") == "Tuple" and len(n["pat"].get("pats", [])) == 2 and all(q.get("k") == "Bind" for q in n["pat"]["pats"]):
+                    # `for (i, a) in values.iter().enumerate().take(NUM_PORTS)`: the i-th child, for the same indices
+                    src = strip(n["iter"])
+                    tk = None
+                    if src.get("k") == "MethodCall" and src["method"] == "take" and len(src.get("args", [])) == 1:
+                        tk, src = src["args"][0], strip(src["recv"])
+                    if src.get("k") == "MethodCall" and src["method"] == "enumerate" and not src.get("args"):
+                        inner = strip(src["recv"])
+                        while inner.get("k") == "MethodCall" and inner["method"] in ("iter", "into_iter") and not inner.get("args"):
+                            inner = strip(inner["recv"])
+                        if tir.place(inner) == "values" and tk is not None and "game::NUM_PORTS" in tir.pretty(tk):
+                            iv = n["pat"]["pats"][0].get("id")
+                            child = n["pat"]["pats"][1].get("id")
+                            bounded = True
                 for x in tir.walk(n["body"]):
                     if x.get("k") == "If" and strip(x["cond"]).get("k") == "LetCond":
                         lc = strip(x["cond"])
@@ -316,5 +331,5 @@ def helpers_rule(F, rep):
                             if y.get("k") == "Call" and (declared(y) or "") == "game::Port::parse" and len(y["args"]) == 1:
                                 nm = strip(y["args"][0])
                                 parse_ok = nm.get("k") == "Field" and nm["name"] == "name" and strip(nm["base"]).get("k") == "Index" and tir.place(strip(nm["base"])["base"]) == "fields" and is_i(strip(nm["base"])["index"])
-                ok = "game::NUM_PORTS" in it and child is not None and conv and parse_ok
+                ok = bounded and child is not None and conv and parse_ok
     rep.ob("import.ports", ok, p, "loop", "ports must be imported child-by-child with the port parsed from the same child's field name")
